@@ -1,5 +1,6 @@
 import PyramidModel.Lemmas.ActionsSort
 import PyramidModel.Lemmas.ActionsRun
+import PyramidModel.Lemmas.ActionsConfig
 /-!
 # C04 — commit resolves configuration conflicts by include depth, or reports them
 
@@ -577,5 +578,211 @@ example :
     let kids2 : Nat → List Act := fun i => if i = 2 then [⟨1, .val 1, 0, []⟩] else []
     let top : List Act := [⟨0, .val 1, 0, []⟩, ⟨2, .none, 0, []⟩]
     run kids1 5 top = (.ok, [0, 2]) ∧ run kids2 5 top = (.conflict [1], [0, 2]) := by decide
+
+/-! ## when a `Deferred` discriminator is called -/
+
+/-- `thunk_evaluated_when_group_resolved` — FULL, step level: resolving the group of phase `o` calls exactly the
+thunks of the actions of phase `o`, each with the ids of the actions executed so far (`st.log`): every action
+the group emits is a waiting action of phase `o` whose discriminator was replaced by `eval (ids of st.log)`
+(a no-op for plain and already evaluated discriminators, `eval_eval`), and the waiting actions of every other
+phase keep their discriminator untouched. -/
+theorem thunk_evaluated_when_group_resolved (o : Int) (st st1 : St) (out : List Act)
+    (h : groupStep o st = .ok (out, st1)) :
+    (∀ a ∈ out, ∃ y ∈ st.remaining, y.order = o ∧ a = { y with disc := y.disc.eval (st.log.map (·.id)) }) ∧
+    (∀ r ∈ st1.remaining, r.order ≠ o → r ∈ st.remaining) := by
+  simp only [groupStep] at h
+  split at h
+  · cases h
+  · rename_i out' ov hr
+    simp only [Except.ok.injEq, Prod.mk.injEq] at h
+    obtain ⟨rfl, rfl⟩ := h
+    constructor
+    · intro a ha
+      have hg := resolveGroup_out_sub hr a ha
+      obtain ⟨hrem, hao⟩ := List.mem_filter.mp hg
+      obtain ⟨y, hy, rfl⟩ := mem_undeferAt.mp hrem
+      have hyo : y.order = o := by simpa [udf_order] using hao
+      refine ⟨y, hy, hyo, ?_⟩
+      simp [udf, hyo]
+    · intro r hr' hne
+      obtain ⟨y, hy, rfl⟩ := mem_undeferAt.mp (mem_of_filter hr')
+      have : y.order ≠ o := by simpa [udf_order] using hne
+      have hu : udf (st.log.map (·.id)) o y = y := by simp [udf, this]
+      rw [hu]; exact hy
+
+/-- `thunk_timing` — FULL, reachable states: at the moment an action `a` is handed out for execution — hence
+at or after the moment its phase group was resolved and its thunk called — every action executed so far
+belongs to a phase `≤ a.order`, no waiting action belongs to a lower phase, and (`phase_regression_refused`)
+none can be added later: all earlier phases are complete.  Together with the step-level theorem: a thunk is
+called when its phase is reached, with the log of the completed earlier phases (and of the part of its own
+phase executed before the resolution).  NOT proved as one whole-run statement: which resolution of the group
+(the first) fixes the value for an action that waits in the queue across generator restarts (`eval_eval`
+makes later calls no-ops); the correspondence test observes the evaluation points `(len(log), value)`. -/
+theorem thunk_timing (kids : Nat → List Act) (top : List Act) (st st' : St) (a : Act)
+    (hr : Reachable kids top st) (h : next (absorb st) = (.yielded a, st')) :
+    (∀ b ∈ st.log, b.order ≤ a.order) ∧ (∀ x ∈ st'.remaining, a.order ≤ x.order) := by
+  have hstep := (Reachable.step hr h).oinv
+  have hlog : st'.log = st.log := by
+    have := next_log st
+    rw [h] at this; exact this
+  constructor
+  · intro b hb
+    have := hstep.sorted
+    simp only [List.pairwise_cons] at this
+    exact this.1 b (hlog ▸ hb)
+  · intro x hx
+    exact hstep.remGe a.order hstep.minIsHead x hx
+
+/-! ## the Configurator layer: `Configurator.action` / `include` / `commit` (model `ActionsConfig.lean`)
+
+A configuration program is a tree of statements `declare` (a `config.action` whose callable runs further
+statements on the same configurator), `include spec` (the included callable runs its statements on the nested
+configurator) and `commit`.  `treeDecls {} p` is the purely syntactic reading: every `declare` statement with the
+include specs (and route prefixes) on the way from the root to the callable that contains it. -/
+
+/-- `include_paths_are_tree_paths` — FULL, any program, any nesting depth, any number of commits, re-includes,
+callables that declare and include while a commit runs: every action ever declared carries as include path
+exactly the chain of include specs from the root to its declaring callable (and was declared under exactly
+that chain of route prefixes); so do the actions still pending and everything declared during a commit. -/
+theorem include_paths_are_tree_paths (p : Stmts) :
+    (∀ d ∈ (runProgram p).core.declared, d ∈ treeDecls {} p) ∧
+    (∀ a ∈ (runProgram p).core.actions, ∃ d ∈ treeDecls {} p, d.id = a.id ∧ d.path = a.path) ∧
+    (∀ r ∈ (runProgram p).commits, ∀ e ∈ r.trace, ∀ a ∈ e.2, ∃ d ∈ treeDecls {} p, d.id = a.id ∧ d.path = a.path) := by
+  have h := runStmts_inv (treeDecls {} p) {} p {} (fun e he => he)
+    ⟨⟨fun cl h => (by cases h), fun d h => (by cases h), fun a h => (by cases h)⟩, fun r h => (by cases h)⟩
+  exact ⟨h.1.decl, h.1.acts, h.2⟩
+
+/-- what the syntactic reading says at a concrete three-level nesting: the action declared inside
+`include 7 (include 8 (include 9 …))` carries `[7, 8, 9]`, the one its callable declares when it runs too; a
+re-included spec (the second `include 7`) contributes nothing. -/
+example :
+    let p : Stmts := .cons (.include 7 (some 1) (.cons (.include 8 none (.cons (.include 9 (some 2)
+        (.cons (.declare 0 (.val 1) 0 (.cons (.declare 1 .none 0 .nil) .nil)) .nil)) .nil)) .nil))
+      (.cons (.include 7 none (.cons (.declare 2 .none 0 .nil) .nil)) (.cons .commit .nil))
+    treeDecls {} p = [⟨0, [7, 8, 9], [1, 2]⟩, ⟨1, [7, 8, 9], [1, 2]⟩, ⟨2, [7], []⟩] ∧
+    (runProgram p).core.declared = [⟨0, [7, 8, 9], [1, 2]⟩, ⟨1, [7, 8, 9], [1, 2]⟩] ∧
+    (runProgram p).commits.map (fun r => (r.outcome, r.log.map (·.id))) = [(.ok, [0, 1])] := by
+  refine ⟨by decide, by decide, by decide⟩
+
+/-- `reinclude_is_noop` — FULL (`processSpec`): an `include` of a spec that was processed already does nothing,
+whatever its body and route prefix; and after an `include spec` every later `include spec` — on any
+configurator, after any further commit-free statements — is such a no-op. -/
+theorem reinclude_is_noop (c c1 c2 : Cfg) (spec : Nat) (rp rp' : Option Nat) (body body' : Stmts) (q : Stmts) (k : Core) :
+    (spec ∈ k.seen → walkStmt c (.include spec rp body) k = k) ∧
+    walkStmt c2 (.include spec rp' body') (walkStmts c1 q (walkStmt c (.include spec rp body) k)) =
+      walkStmts c1 q (walkStmt c (.include spec rp body) k) := by
+  have h1 : ∀ k' : Core, spec ∈ k'.seen → ∀ c' r b, walkStmt c' (.include spec r b) k' = k' := by
+    intro k' h c' r b
+    simp only [walkStmt, List.contains_iff_mem.mpr h, if_true]
+  exact ⟨fun h => h1 k h c rp body, h1 _ (walkStmts_seen c1 q _ spec (include_marks c spec rp body k)) c2 rp' body'⟩
+
+/-- `commit_sequence` — FULL: running `p; commit; q` is running `p`, then the commit, then `q` on what the
+commit leaves — and a commit leaves *nothing* but its result: no pending action, no processed spec, no
+callable, and (the resolver state being created inside `execute_actions`) no memory of what was executed.
+So the commits of a program are independent batches run one after another; a commit that raises ends the
+program. -/
+theorem commit_sequence (c : Cfg) (p q : Stmts) (w : World) (h : (runStmts c p w).aborted = false) :
+    runStmts c (p.append (.cons .commit q)) w = runStmts c q (runStmt c .commit (runStmts c p w)) ∧
+    (runStmt c .commit (runStmts c p w)).core.seen = [] ∧
+    (runStmt c .commit (runStmts c p w)).core.actions = [] ∧
+    (runStmt c .commit (runStmts c p w)).core.closures = [] ∧
+    (runStmt c .commit (runStmts c p w)).commits = (runStmts c p w).commits ++ [(commitCore (runStmts c p w).core).1] ∧
+    ((commitCore (runStmts c p w).core).1.outcome ≠ .ok →
+      runStmts c (p.append (.cons .commit q)) w = runStmt c .commit (runStmts c p w)) := by
+  have h0 : runStmts c (p.append (.cons .commit q)) w = runStmts c q (runStmt c .commit (runStmts c p w)) := by
+    rw [runStmts_append]
+    simp only [runStmts, h, Bool.false_eq_true, if_false]
+  refine ⟨h0, rfl, rfl, rfl, rfl, ?_⟩
+  intro hne
+  rw [h0]
+  apply runStmts_aborted
+  simp only [runStmt]
+  simpa using hne
+
+/-- `config_commit_is_exec` — FULL: what `Configurator.commit` does to the pending actions `k.actions` is
+`exec K` from a fresh resolver state (`initSt`), where `K i` = the actions the callable of `i` declared while
+it ran (read off the commit's trace) — provided no action id was executed twice.  Hence every theorem about
+`exec` for arbitrary `kids` above applies to what a Configurator produces. -/
+theorem config_commit_is_exec (k : Core) (hn : ((commitCore k).1.trace.map (·.1)).Nodup) :
+    (exec (kidsOf (commitCore k).1.trace) (closuresSize k.closures + 1) (initSt k.actions)).1 = (commitCore k).1.outcome ∧
+    (exec (kidsOf (commitCore k).1.trace) (closuresSize k.closures + 1) (initSt k.actions)).2.log.reverse = (commitCore k).1.log := by
+  have := execW_eq_exec (closuresSize k.closures + 1) (initSt k.actions) { k with actions := [] } [] hn
+  simp only [commitCore]
+  rw [this]
+  exact ⟨rfl, rfl⟩
+
+/-- corollary (composition with `one_action_per_discriminator` and `order_thm_reentrant`): in a commit of a
+Configurator program in which the declared action ids are distinct, no action runs twice, at most one action
+runs per discriminator, phases never decrease and inside a phase the actions run in declaration order. -/
+theorem config_commit_invariants (k : Core) (hn : ((commitCore k).1.trace.map (·.1)).Nodup)
+    (hd : IdsNodup (declared (kidsOf (commitCore k).1.trace) k.actions (commitCore k).1.log.reverse)) :
+    IdsNodup (commitCore k).1.log ∧
+    (∀ a ∈ (commitCore k).1.log, ∀ b ∈ (commitCore k).1.log, ∀ d, a.key = some d → b.key = some d → a = b) ∧
+    (commitCore k).1.log.Pairwise (fun a b => a.order ≤ b.order) ∧
+    ∀ o, (ordIds o (commitCore k).1.log).Sublist
+      (ordIds o (declared (kidsOf (commitCore k).1.trace) k.actions (commitCore k).1.log.reverse)) := by
+  obtain ⟨_, hlog⟩ := config_commit_is_exec k hn
+  have hlog' : (exec (kidsOf (commitCore k).1.trace) (closuresSize k.closures + 1) (initSt k.actions)).2.log =
+      (commitCore k).1.log.reverse := by rw [← hlog, List.reverse_reverse]
+  have h1 := one_action_per_discriminator (kidsOf (commitCore k).1.trace) k.actions (closuresSize k.closures + 1)
+    (by rw [hlog']; exact hd)
+  have h2 := order_thm_reentrant (kidsOf (commitCore k).1.trace) k.actions (closuresSize k.closures + 1)
+    (by rw [hlog']; exact hd)
+  rw [hlog'] at h1 h2
+  simp only [List.reverse_reverse] at h2
+  refine ⟨?_, ?_, h2.1, h2.2.1⟩
+  · have := h1.1
+    unfold IdsNodup at this ⊢
+    rw [List.map_reverse] at this
+    exact (List.reverse_perm _).nodup_iff.mp this
+  · intro a ha b hb d hda hdb
+    exact h1.2 a (List.mem_reverse.mpr ha) b (List.mem_reverse.mpr hb) d hda hdb
+
+/-- corollary (composition with `static_resolution_phases`): when no pending callable declares anything, the
+commit of a Configurator program is the declarative phase specification of its pending actions. -/
+theorem config_commit_static (k : Core) (hb : ∀ cl ∈ k.closures, cl.body = .nil) (hn : IdsNodup k.actions)
+    (hp : Plain k.actions) (hl : k.actions.length ≤ closuresSize k.closures) :
+    ((commitCore k).1.outcome, (commitCore k).1.log.map (·.id)) = specRun k.actions := by
+  have hst := execW_static (closuresSize k.closures + 1) (initSt k.actions) { k with actions := [] } [] hb rfl
+    (fun e he => by cases he)
+  have := execW_eq_exec_of (closuresSize k.closures + 1) (initSt k.actions) { k with actions := [] } [] noKids
+    (fun e he => by rw [hst e he]; rfl)
+  rw [← static_resolution_phases k.actions hn hp (closuresSize k.closures + 1) (by omega)]
+  simp only [run, commitCore, this]
+
+/-- the hypotheses of the three bridge theorems on a concrete program: two includes declare the same
+discriminator at different depths (the shallower one wins), the winner's callable declares a further action
+through a nested include while the commit runs; the first commit's trace has distinct ids, the declared ids are
+distinct; a second batch after the commit re-includes spec 5 (processed again: the first commit forgot it). -/
+example :
+    let p : Stmts :=
+      .cons (.include 5 none (.cons (.declare 0 (.val 1) 0 (.cons (.include 6 none (.cons (.declare 3 .none 0 .nil) .nil)) .nil)) .nil))
+      (.cons (.include 5 none (.cons (.declare 9 .none 0 .nil) .nil))
+      (.cons (.include 4 none (.cons (.include 6 none (.cons (.declare 1 (.val 1) 0 .nil) .nil)) .nil))
+      (.cons (.declare 2 .none 10 .nil) .nil)))
+    let k := (runStmts {} p {}).core
+    k.actions.map (fun a => (a.id, a.path)) = [(0, [5]), (1, [4, 6]), (2, [])] ∧
+    ((commitCore k).1.outcome, (commitCore k).1.log.map (·.id)) = (.conflict [1], []) ∧
+    (let k2 := (runStmts {} (.cons (.include 4 none (.cons (.declare 0 (.val 1) 0 (.cons (.include 6 none
+        (.cons (.declare 3 .none 0 .nil) .nil)) .nil)) (.cons (.include 6 none (.cons (.declare 1 (.val 1) 0 .nil) .nil)) .nil)))
+        (.cons (.declare 2 .none 10 .nil) .nil)) {}).core
+     k2.actions.map (fun a => (a.id, a.path)) = [(0, [4]), (1, [4, 6]), (2, [])] ∧
+     ((commitCore k2).1.outcome, (commitCore k2).1.log.map (·.id)) = (.ok, [0, 2]) ∧
+     (commitCore k2).1.trace.map (fun e => (e.1, e.2.map (·.id))) = [(0, []), (2, [])] ∧
+     ((commitCore k2).1.trace.map (·.1)).Nodup ∧
+     IdsNodup (declared (kidsOf (commitCore k2).1.trace) k2.actions (commitCore k2).1.log.reverse)) ∧
+    (runProgram (p.append (.cons .commit .nil))).aborted = true := by
+  refine ⟨by decide, by decide, ⟨by decide, by decide, by decide, by decide, by decide⟩, by decide⟩
+
+/-- `config_commit_static`'s hypotheses: three plain declarations through nested includes, nothing declares -/
+example :
+    let k := (runStmts {} (.cons (.declare 0 (.val 1) 0 .nil) (.cons (.include 3 none (.cons (.declare 1 (.val 1) 0 .nil)
+      (.cons (.declare 2 .none (-10) .nil) .nil))) .nil)) {}).core
+    (∀ cl ∈ k.closures, cl.body = .nil) ∧ IdsNodup k.actions ∧ Plain k.actions ∧
+      k.actions.length ≤ closuresSize k.closures ∧ specRun k.actions = (.ok, [2, 0]) := by
+  refine ⟨?_, by decide, by decide, by decide, by decide⟩
+  intro cl hcl
+  simp [runStmts, runStmt, declareCore, Cfg.enter] at hcl
+  rcases hcl with rfl | rfl | rfl <;> rfl
 
 end Pyr.Actions
